@@ -85,6 +85,12 @@ func installC17World(n int) {
 	verifrt.Override("(*os.File).WriteTo", func(f *os.File, w io.Writer) (int64, error) {
 		return io.Copy(w, struct{ io.Reader }{c17Files[f].src})
 	})
+	// whole-file helpers: they hold the complete document in one buffer
+	verifrt.Override("os.ReadFile", func(name string) ([]byte, error) { return make([]byte, c17Source.n), nil })
+	verifrt.Override("os.WriteFile", func(name string, data []byte, perm os.FileMode) error {
+		c17Target = &c17File{written: len(data)}
+		return nil
+	})
 	verifrt.Override("net/http.Get", func(url string) (*http.Response, error) {
 		return &http.Response{StatusCode: 200, Body: c17Source}, nil
 	})
